@@ -297,7 +297,10 @@ fn op_frontend(req: &J) -> J {
                         "message": d.message.as_string(),
                         "severity": d.severity,
                         "pos": pos_json(&d.position),
-                        "notes": d.notes.iter().map(|(_, p)| pos_json(p)).collect::<Vec<_>>(),
+                        // Notes may point into other files (e.g. the prelude): only report
+                        // the ones that are in the input file.
+                        "notes": d.notes.iter().filter(|(_, p)| *p.path == path).map(|(_, p)| pos_json(p)).collect::<Vec<_>>(),
+                        "other_file": *d.position.path != path,
                         "fixes": d.fixes.iter().map(|f| json!({
                             "pos": pos_json(&f.position),
                             "new_text": f.new_text,
